@@ -2,8 +2,10 @@ package main
 
 import (
 	"bytes"
+	"encoding/binary"
 	"errors"
 	"io"
+	"math"
 	"sort"
 
 	"github.com/DataDog/sketches-go/dataset"
@@ -754,6 +756,19 @@ func (v *vm) execCodec() {
 			if v.decTail(orig, b, err) {
 				v.str("ok ")
 				v.res = appendX(v.res, x)
+				v.str(" ")
+				v.res = appendInt(v.res, len(orig)-len(b))
+			}
+		case "decbits":
+			// the decoded value bit for bit (NaN payloads and signs included), printed as its little-endian bytes
+			orig := v.hex(2)
+			b := orig
+			x, err := enc.DecodeFloat64LE(&b)
+			if v.decTail(orig, b, err) {
+				var le [8]byte
+				binary.LittleEndian.PutUint64(le[:], math.Float64bits(x))
+				v.str("ok b")
+				v.res = appendHex(v.res, le[:])
 				v.str(" ")
 				v.res = appendInt(v.res, len(orig)-len(b))
 			}
